@@ -72,7 +72,7 @@ Print Assumptions C17_construction_partial.
 Definition wf_lim (L : circuit) : Prop :=
   closed L ∧ acyclic L ∧
   ∀ n i, L !! n = Some i → size (n_fi i) ≤ 2 ∧ (is_const (n_ty i) = true → n_fi i = ∅) ∧
-                           (n_ty i ≠ Input → is_const (n_ty i) = false → n_fi i ≠ ∅).
+                           (n_ty i ≠ Input → is_const (n_ty i) = false → n_fi i ≠ ∅) ∧ (n_ty i = Input → n_fi i = ∅).
 Theorem C17_shape : ∀ L sgs, wf_lim L → supergates L = Ok sgs →
   Forall (λ sg, size (outputs (c_g sg)) = 1 ∧
                 ∀ n, n ∈ gates (c_g sg) → n_ty <$> c_g sg !! n = n_ty <$> L !! n ∧ fanin (c_g sg) n = fanin L n) sgs.
@@ -94,13 +94,23 @@ Theorem C17_cover_single : ∀ L o sgs, wf_lim L → outputs L = {[o]} → super
 Proof.
   intros L o sgs (Hcl & [rank Hrank] & Hb).
   exact (supergates_cover_single L rank Hcl Hrank (λ n i Hi, proj1 (Hb n i Hi)) (λ n i Hi, proj1 (proj2 (Hb n i Hi)))
-           (λ n i Hi, proj2 (proj2 (Hb n i Hi))) o sgs).
+           (λ n i Hi, proj1 (proj2 (proj2 (Hb n i Hi)))) o sgs).
 Qed.
 Print Assumptions C17_cover_single.
 Definition C17_cover_full : Prop := ∀ L sgs, wf_lim L → supergates L = Ok sgs →
   ∀ n o, o ∈ outputs L → reach L n o → n ∉ inputs L → ∃ sg, sg ∈ sgs ∧ n ∈ gates (c_g sg).
-Definition C17_independence_full : Prop := ∀ L sgs, wf_lim L → supergates L = Ok sgs →
+
+(* ---- the independence clause, any number of outputs: an input of a supergate is a source, or a frontier node with two tree
+   children; such a node strictly dominates everything upstream of it and is a strict dominator of no member of the grown
+   set (members hang below the root through single-child nodes only); two inputs with a common upstream node would be
+   comparable in the dominator chain of that node. ---- *)
+Theorem C17_independence : ∀ L sgs, wf_lim L → supergates L = Ok sgs →
   Forall (λ sg, ∀ a b x, a ∈ inputs (c_g sg) → b ∈ inputs (c_g sg) → a ≠ b → reach L x a → reach L x b → False) sgs.
+Proof.
+  intros L sgs (Hcl & [rank Hrank] & Hb).
+  exact (supergates_independent L rank Hcl Hrank (λ n i Hi, proj1 (Hb n i Hi)) (λ n i Hi, proj2 (proj2 (proj2 (Hb n i Hi)))) sgs).
+Qed.
+Print Assumptions C17_independence.
 
 (* the order clause for the list the MODEL returns (Kahn rounds over the dependency relation the code hands to
    networkx.topological_sort); the implementation's own order is not modelled and is judged per run by check_topo *)
@@ -108,6 +118,17 @@ Theorem C17_model_order_partial : ∀ L sgs, supergates L = Ok sgs →
   ∀ i j sgi sgj x, sgs !! i = Some sgi → sgs !! j = Some sgj → x ∈ inputs (c_g sgi) → x ∈ gates (c_g sgj) → j < i.
 Proof. exact supergates_topo. Qed.
 Print Assumptions C17_model_order_partial.
+
+(* ---- all four clauses for single-output circuits: the property for the mirrored model in the super-circuit's domain ---- *)
+Theorem C17_single_output : ∀ L o sgs, wf_lim L → outputs L = {[o]} → supergates L = Ok sgs → sg_spec L sgs.
+Proof.
+  intros L o sgs Hwf Hout H. split; [|split].
+  - pose proof (C17_shape L sgs Hwf H) as H1. pose proof (C17_independence L sgs Hwf H) as H2.
+    rewrite Forall_forall in H1, H2 |- *. intros sg Hsg. destruct (H1 sg Hsg) as [Ha Hb]. split; [done|]. split; [done|]. exact (H2 sg Hsg).
+  - intros n o' Ho'. rewrite Hout in Ho'. apply elem_of_singleton in Ho'. subst o'. by apply (C17_cover_single L o sgs).
+  - exact (C17_model_order_partial L sgs H).
+Qed.
+Print Assumptions C17_single_output.
 
 (* ---- witnesses ---- *)
 (* x = and(a,b), y = or(c,d), g = and(x,y), o1 = not(g), o2 = buf(g): five supergates, the shared one found in both cones *)
